@@ -16,7 +16,9 @@ EXPLANATION = (
     "(must-pass-through): in _initialize the clip of the weather to the simulation window (read_weather_inputs) "
     "dominates every other use of the weather table and the clipped frame is what is stored and what the positional "
     "matrix is built from. C14.c: the clip itself selects rows only by comparing the Date column with both window bounds "
-    "(never by index label / position). NOT decided: that extending the end date leaves completed seasons of thermal-time crops "
+    "(never by index label / position). C14.d (write-once summary): the store of a season's summary row is reachable only through the True edge of a "
+    "`harvest_flag is False` test (edge removal on the CFG) - otherwise days simulated after the harvest, which exist only when the "
+    "run is extended, rewrite a completed season's row. NOT decided: that extending the end date leaves completed seasons of thermal-time crops "
     "unchanged (depends on cumulative sums; SwitchGDD averages over all seasons by design).")
 
 
@@ -128,4 +130,19 @@ def run(chk, prog, tier):
                 chk.violation("C14.b", init.key, construct, "weather outside the simulation window can reach this use", loc=init.loc(n))
     chk.floor("C14.b", nuse, 3, "uses of self.weather_df in _initialize")
     window_selection(chk, prog, "C14.c")
+    # ---- C14.d write-once summary rows
+    from .c06 import summary_written_once
+    from ..common import STEP_FN
+    step = prog.func(STEP_FN)
+    sflow = flow_of(step)
+    fs = [n for n in walk_no_nested(step.node) if isinstance(n, ast.Assign) and isinstance(n.targets[0], ast.Subscript)
+          and any(isinstance(x, ast.Attribute) and x.attr == "final_stats" for x in ast.walk(n.targets[0]))]
+    chk.floor("C14.d", len(fs), 1, "stores of a seasonal summary row")
+    for f in fs:
+        construct = norm(f.targets[0]) + " = [...]"
+        if summary_written_once(sflow, sflow.stmt_node[id(f)]):
+            chk.ok("C14.d", STEP_FN, construct, "every path to the store takes the True edge of a test `harvest_flag is False`")
+        else:
+            chk.violation("C14.d", STEP_FN, construct, "a path reaches the summary row's store without passing `harvest_flag is False`: days after the "
+                          "harvest (present only when the run goes on) overwrite the completed season's row", loc=step.loc(f))
     chk.exhaustive = True
